@@ -29,7 +29,7 @@ func TestC10Concurrent(t *testing.T) {
 	defer vt.Watch("TestC10Concurrent", 120*time.Second)()
 	rec := vt.For("C10")
 	rec.Rule("race detector + lost-update check (statistical): 1-3 hosts and 2-6 clients on badger/memory, requests sent over in-process connections and as direct calls; every round all agents send keep-alives, clients also send peer requests and wallets link nodes, all at the same virtual instant from separate goroutines under -race; any race report fails; at quiescence all balances must equal the one-at-a-time model; non-trivial = >=2 concurrent clients; distinct by config")
-	rapid.Check(t, func(rt *rapid.T) {
+	check(t, func(rt *rapid.T) {
 		rapid.SyncTest(rt, func(rt *rapid.T) { concCase(rt, "C10", rec) })
 	})
 }
@@ -460,7 +460,7 @@ func TestC10Serialisable(t *testing.T) {
 	defer vt.Watch("TestC10Serialisable", 120*time.Second)()
 	rec := vt.For("C10")
 	rec.Rule("serialisability (harness-owned scheduler, store-call granularity): 2-3 operations of different identities drawn from {keep-alive of a client, keep-alive of its host, peer request, connect of a new client, link a node to a wallet, withdrawal} start from an identical prepared pool (hosts, billed clients, optional wallet link/credit/deposit/minimum) and are interleaved at every store call and settle call by rapid draws; oracle: replies (nonce decisions, errors, invalid/active peer sets, returned hosts; the balance figure printed in a keep-alive reply is not compared) + full final state incl. every balance (relative timestamps) must equal those of SOME permutation executed one at a time on a fresh identical pool (all <=3! permutations run); non-trivial = the schedule actually interleaves two operations; distinct by config + ops + schedule")
-	rapid.Check(t, func(rt *rapid.T) {
+	check(t, func(rt *rapid.T) {
 		rapid.SyncTest(rt, func(rt *rapid.T) { c10SerCase(rt, rec) })
 	})
 }
@@ -478,7 +478,7 @@ func TestC10Snapshots(t *testing.T) {
 	defer vt.Watch("TestC10Snapshots", 120*time.Second)()
 	rec := vt.For("C10")
 	rec.Rule("snapshots: every Balance / Node / Stats value handed out by a store (memory, badger) or by the pool (update replies) during a generated history of credits, links, keep-alives and node updates is retained with a deep digest taken at receipt; after every later operation all retained values are re-digested and must be unchanged; non-trivial = >=3 credits to one balance after a snapshot of it was taken; distinct by driver + op sequence")
-	rapid.Check(t, func(rt *rapid.T) {
+	check(t, func(rt *rapid.T) {
 		rapid.SyncTest(rt, func(rt *rapid.T) {
 			driver := rapid.SampledFrom([]string{"memory", "memory", "badger"}).Draw(rt, "driver")
 			var st store.Store
@@ -584,7 +584,7 @@ func TestC10BinaryRace(t *testing.T) {
 	os.Setenv("VERIF_BINARY_RACE", "1")
 	p := startPool(t)
 	defer p.stop()
-	rapid.Check(t, func(rt *rapid.T) {
+	check(t, func(rt *rapid.T) {
 		nHosts := rapid.IntRange(1, 3).Draw(rt, "hosts")
 		nClients := rapid.IntRange(2, 5).Draw(rt, "clients")
 		rounds := rapid.IntRange(1, 4).Draw(rt, "rounds")
@@ -698,7 +698,7 @@ func TestC10BinaryBurst(t *testing.T) {
 	p := startPool(t)
 	defer p.stop()
 	idBase := 100
-	rapid.Check(t, func(rt *rapid.T) {
+	check(t, func(rt *rapid.T) {
 		k := rapid.IntRange(2, 40).Draw(rt, "clients")
 		ctx, cancel := context.WithTimeout(context.Background(), 60*time.Second)
 		defer cancel()
